@@ -58,6 +58,8 @@ class Ctx:
         self.death_snapshots = []
         self.ex_taken = 0
         self.gate_open_obs = []
+        self.get_log = []
+        self.reg_samples = []
 
 
 def _mk_executor(ctx, cfgx):
@@ -97,16 +99,39 @@ def _get_reusable(ctx, a):
         kw.update(initializer=tasks.init_ok, initargs=("M",))
     prev = re_._executor
     prev_flags = None
+    prev_cq = None
+    pids_before = []
+    prev_started = False
+    prev_mw = None
+    w = ctx.w
     if prev is not None:
         prev_flags = (bool(prev._flags.broken), bool(prev._flags.shutdown))
+        prev_cq = id(prev._call_queue) if prev._call_queue is not None else None
+        pids_before = sorted(pid for pid, p in list(prev._processes.items()) if p._kp is not None and p._kp.alive)
+        prev_started = prev._executor_manager_thread is not None
+        prev_mw = prev._max_workers
+    ids_before = [r["executor_id"] for r in ctx.executors if r["kind"] == "reusable"]
+    start = w.steps
     ex = re_.get_reusable_executor(**kw)
+    # (no scheduling point between the return above and the reads below)
+    info = {"same": ex is prev, "executor_id": ex.executor_id, "prev_flags": prev_flags,
+            "prev_flags_at_return": (None if prev is None else (bool(prev._flags.broken), bool(prev._flags.shutdown))),
+            "flags_at_return": (bool(ex._flags.broken), bool(ex._flags.shutdown)),
+            "max_workers_at_return": ex._max_workers, "requested": kw["max_workers"],
+            "pids_before": pids_before, "prev_started": prev_started, "prev_max_workers": prev_mw,
+            "pids_after": sorted(pid for pid, p in list(ex._processes.items()) if p._kp is not None and p._kp.alive),
+            "registered_after": len(ex._processes),
+            "ids_before": ids_before, "start": start, "end": w.steps,
+            "prev_workers_alive_at_return": ([] if prev_cq is None or ex is prev else
+                                             [q.pid for q in w.procs.values() if getattr(q, "cq_id", None) == prev_cq and q.alive]),
+            "timeout_kw": kw["timeout"], "init_kw": init, "reuse": kw["reuse"],
+            "prev_kwargs_equal": None}
     r = _register(ctx, ex, "reusable")
     for o in ctx.executors:
         if o["obj"] is not ex and o["kind"] == "reusable":
             o["released"] = True
-    return ex, {"same": ex is prev, "executor_id": ex.executor_id, "prev_flags": prev_flags,
-                "flags_at_return": (bool(ex._flags.broken), bool(ex._flags.shutdown)),
-                "max_workers_at_return": ex._max_workers}
+    ctx.get_log.append(info)
+    return ex, info
 
 
 def _submit(ctx, th, spec):
@@ -311,7 +336,15 @@ def _user_thread(ctx, i, ops):
         if name == "open_gate":
             w.sched_point()
             ctx.gate_open_obs.append({"step": w.steps, "bodies": len(w.running_bodies),
-                                      "alive": len([q for q in w.procs.values() if q.alive and q is not w.root])})
+                                      "alive": len([q for q in w.procs.values() if q.alive and q is not w.root]),
+                                      "executors": [{"max_workers": r["obj"]._max_workers,
+                                                     "registered": len(r["obj"]._processes),
+                                                     "broken": bool(r["obj"]._flags.broken),
+                                                     "shutdown": bool(r["obj"]._flags.shutdown)}
+                                                    for r in ctx.executors if r["obj"] is not None and not r["released"]],
+                                      "unfinished_gates": sum(1 for tok, f in ctx.futs.items()
+                                                              if ctx.fut_meta[tok]["spec"]["kind"] == "gate"
+                                                              and f._state in ("PENDING", "RUNNING"))})
             w.gates[op[1]] = True
             w.version += 1
             return None
@@ -379,6 +412,15 @@ def run_case(case, verbose=False, hooks=None):
                                     "announced": _announced(p)})
 
     w.on_death = on_death
+    w.pending_probe = lambda: sum(1 for f in ctx.futs.values() if f._state in ("PENDING", "RUNNING"))
+
+    def sample_registered(where_):
+        for r in ctx.executors:
+            o = r["obj"]
+            if o is not None:
+                ctx.reg_samples.append((w.steps, where_, len(o._processes), o._max_workers, id(o) & 0xFFFF))
+
+    w.sample_registered = sample_registered
     _w.W = w
     patches.reset_module_state()
     fns = [(f"user{i}", _user_thread(ctx, i, ops)) for i, ops in enumerate(case["program"])]
@@ -451,11 +493,14 @@ def _history(w, ctx, verdict, wlist):
     H.events = w.events
     H.death_snapshots = ctx.death_snapshots
     H.gate_open_obs = ctx.gate_open_obs
+    H.get_log = ctx.get_log
+    w.sample_registered("end")
+    H.reg_samples = ctx.reg_samples
     H.timers_fired = w.timers_fired
     H.preemptions = w.preemptions
     H.excluded = dict(w.excluded)
     if ctx.case.get("_excluded_program"):
-        H.excluded["program:no_release_with_pending_when_respawn_possible"] = ctx.case["_excluded_program"]
+        H.excluded["program_or_config_adjusted"] = ctx.case["_excluded_program"]
     H.max_concurrency = w.max_concurrency
     H.max_alive_workers = w.max_alive_workers
     H.concurrency_samples = w.concurrency_samples
